@@ -11,3 +11,6 @@ import RepidModel.Pred.C01
 import RepidModel.Pred.Broker
 import RepidModel.Driver.State
 import RepidModel.Driver.Mem
+import RepidModel.Worker.Processor
+import RepidModel.Worker.Chain
+import RepidModel.Driver.Worker
